@@ -1211,3 +1211,19 @@ Lemma ex_fault_run :
                 /\ map r_cls rs = [errclass CfgC e_EACCES; errclass CfgC e_EACCES; errclass CfgC e_EACCES]
                 /\ map r_ocount rs = [2; 0; 0] /\ w_fail (g_w g') = 1.
 Proof. eexists. eexists. split; [vm_compute; reflexivity|]. vm_compute. auto. Qed.
+
+(* ------------------------------------------------------------------ the errno table by class NAME (index in the fixed list of names
+   SUCCESS ARG COUNT UNKNOWN OTHER NO_MEM FILE NOT_SAME AMODE UNSUPPORTED_DATAREP UNSUPPORTED_OPERATION NO_SUCH_FILE FILE_EXISTS
+   BAD_FILE ACCESS NO_SPACE QUOTA READ_ONLY FILE_IN_USE DUP_DATAREP CONVERSION IO), the same in both configurations *)
+Definition IDX_NO_MEM : Z := 5.        Definition IDX_AMODE : Z := 8.      Definition IDX_NO_SUCH_FILE : Z := 11.
+Definition IDX_FILE_EXISTS : Z := 12.  Definition IDX_BAD_FILE : Z := 13.  Definition IDX_ACCESS : Z := 14.
+Definition IDX_NO_SPACE : Z := 15.     Definition IDX_IO : Z := 21.        Definition IDX_UNKNOWN : Z := 3.
+
+Lemma errclass_table c :
+  class_index c (errclass c e_ENOENT) = IDX_NO_SUCH_FILE /\ class_index c (errclass c e_EEXIST) = IDX_FILE_EXISTS
+  /\ class_index c (errclass c e_EACCES) = IDX_ACCESS /\ class_index c (errclass c e_ENOSPC) = IDX_NO_SPACE
+  /\ class_index c (errclass c e_ENOMEM) = IDX_NO_MEM /\ class_index c (errclass c e_EIO) = IDX_IO
+  /\ class_index c (errclass c e_EISDIR) = IDX_BAD_FILE /\ class_index c (errclass c e_ENAMETOOLONG) = IDX_BAD_FILE
+  /\ class_index c (errclass c e_EINVAL) = IDX_AMODE /\ class_index c (errclass c 0) = 0
+  /\ class_index c (errclass c 100000) = IDX_UNKNOWN.
+Proof. destruct c; vm_compute; repeat split; reflexivity. Qed.
